@@ -7,6 +7,9 @@ The harness chooses a schedule of external events
     F<a>:<m>  feed m more frames from address a (one feed_data call)
     R         the oldest pending device-class import completes (or raises: address without a class)
     G<a>      start a task awaiting protocol.get(<name of address a>)
+    T<a>      a task awaiting protocol.get(<name of a>, timeout=0.25) is started and the clock advanced past its
+              deadline: it raises TimeoutError if there is no entry yet (it returns the entry if there is one); it
+              is not one of the get() callers of the schedule and leaves no trace — callers still waiting keep waiting
     C         the connection is lost (end of stream on the current reader: the producer schedules
               connection_lost()) and re-established at once from an on_connection_lost callback with a
               new reader / writer, as Connection._reconnect does; later frames arrive on the new reader
@@ -77,6 +80,8 @@ def parse_ev(ev):
         return ("R",)
     if ev == "C":
         return ("C",)
+    if ev[0] == "T":
+        return ("T", int(ev[1:]))
     if ev[0] == "G":
         return ("G", int(ev[1:]))
     a, m = ev[1:].split(":")
@@ -87,7 +92,7 @@ def run_case(case):
     """case = dict(consumers, events=[...], cbsusp) -> (effective events, snapshots, extra)"""
     events = list(case["events"])
     canon = Canon()
-    dispatched, handled, gets, setups = [], [], [], []
+    dispatched, handled, gets, setups, timed = [], [], [], [], []
     with pipefake.Driven(hold_devices=True) as loop:
         proto = AsyncProtocol(consumers_count=case["consumers"])
 
@@ -162,6 +167,15 @@ def run_case(case):
                 fed.extend([a] * m)
             elif e[0] == "C":
                 conn["reader"].feed_eof()
+            elif e[0] == "T":
+                t = loop.create_task(proto.get(name_of(e[1]), timeout=0.25))
+                loop.settle()
+                loop.settle(until=loop.time() + 0.5)
+                loop.settle()
+                had = proto.data.get(name_of(e[1]))
+                ok = t.done() and not t.cancelled() and (
+                    (t.exception() is None and t.result() is had) if had is not None else isinstance(t.exception(), asyncio.TimeoutError))
+                timed.append(bool(ok))
             elif e[0] == "R":
                 if not loop.held:
                     return False
@@ -183,7 +197,7 @@ def run_case(case):
         extra = dict(
             unfinished=proto._queues.read._unfinished_tasks,
             consumers_alive=sum(1 for t in proto.tasks if t.get_name().startswith("frame_consumer") and not t.done()),
-            fa=fed, ga=asked, connections=conn["established"], losses=conn["lost"],
+            fa=fed, ga=asked, timed_gets_ok=all(timed), connections=conn["established"], losses=conn["lost"],
             setup_objects=[canon(d) for d in setups],
         )
     return effective, snaps, extra
@@ -273,6 +287,12 @@ def with_reconnects(ev, positions=None):
         yield ev[:pos] + ["C"] + ev[pos:]
 
 
+def with_timed_gets(ev, addr=ECOMAX):
+    """the schedule with a get() that times out inserted at every position"""
+    for pos in range(len(ev) + 1):
+        yield ev[:pos] + [f"T{addr}"] + ev[pos:]
+
+
 def random_schedule(rng, multi=False):
     k = rng.randint(1, 4)
     comp = rng.choice(list(compositions(k)))
@@ -308,6 +328,11 @@ def evaluate(res, cases):
         res.count(f"consumers:{case['consumers']}")
         res.count(f"gets:{len(extra['ga'])}")
         res.count(f"addresses:{len(set(extra['fa']))}")
+        if any(e[0] == "T" for e in eff):
+            res.count("timed-out-get-before-publication" if any(e[0] == "T" and not o["published"] for e, o in zip(eff, snaps)) else "timed-get-after-publication")
+            if not extra["timed_gets_ok"]:
+                res.fail("spec", inp, "a timed get() raises TimeoutError at its deadline when there is no entry, returns the entry otherwise",
+                         extra, "a get() with a timeout neither timed out nor returned the entry")
         if "C" in eff:
             res.count("reconnects:" + str(eff.count("C")))
             first = eff.index("C")
@@ -370,6 +395,10 @@ def run(ctx):
             for _ in range(rng.choice([1, 1, 2])):
                 ev.insert(rng.randint(0, len(ev)), "C")
             cases.append(dict(consumers=rng.randint(1, 3), cbsusp=rng.randint(0, 1), events=ev))
+        for i, ev in enumerate(all_schedules(3, 1)):          # an impatient get() at every position, next to a patient one
+            if any(x[0] == "G" for x in ev):
+                for ev2 in with_timed_gets(ev):
+                    cases.append(dict(consumers=1 + i % 3, cbsusp=i % 2, events=ev2))
         res.exhaustive = True
         res.extra["exhaustive_over"] = ("one address: all arrangements of feed groups of 1..4 frames x release position x 0..2 get() "
                                         "positions x consumers 1..3; several addresses: all sequences of 1..3 frames over {69,81,86} x "
@@ -395,6 +424,9 @@ def run(ctx):
             for _ in range(rng.choice([1, 1, 2])):
                 ev.insert(rng.randint(0, len(ev)), "C")
             cases.append(dict(consumers=rng.randint(1, 3), cbsusp=rng.randint(0, 1), events=ev))
+        for ev in [e for e in short if any(x[0] == "G" for x in e)][:40]:   # an impatient get() at every position, next to a patient one
+            for ev2 in with_timed_gets(ev):
+                cases.append(dict(consumers=rng.randint(1, 3), cbsusp=rng.randint(0, 1), events=ev2))
     if ctx.get("max_cases"):
         cases = cases[:ctx["max_cases"]]
     evaluate(res, cases)
